@@ -82,6 +82,8 @@ type Env struct {
 	Signer          types.Signer
 	QiScalingFactor float64
 	Pool            *KeyPool
+	rateNum         *big.Int
+	rateDen         *big.Int
 }
 
 // WrapKeepsLocal mirrors the fork rule: before QiWrappingChangeBlock a wrapped output also
@@ -110,7 +112,12 @@ func (e *Env) EtxLimits() (r, p uint64) {
 // QiToQuai converts qits to wei with the rate functions of the implementation (used by the
 // generator to aim fees, never by an oracle).
 func (e *Env) QiToQuai(qits *big.Int) *big.Int {
-	return misc.QiToQuai(e.Header, e.PrimeTerminus.ExchangeRate(), e.Header.Difficulty(), qits)
+	if e.rateNum == nil { // misc.QiToQuai is num*qits/den; the two rewards are costly (big-int log2)
+		e.rateNum = misc.CalculateQuaiReward(e.Header.WorkObjectHeader(), e.Header.Difficulty(), e.PrimeTerminus.ExchangeRate())
+		e.rateDen = misc.CalculateQiReward(e.Header.WorkObjectHeader(), e.Header.Difficulty())
+	}
+	q := new(big.Int).Mul(e.rateNum, qits)
+	return q.Quo(q, e.rateDen)
 }
 
 // ZoneEligible reports whether the eligibility mask has the bit of the zone byte set.
@@ -131,17 +138,17 @@ var DestZones = []byte{0x01, 0x02, 0x10, 0x11, 0x21}
 func GenEnv(t *rapid.T, loc common.Location) *Env {
 	e := &Env{Loc: loc, ChainID: big.NewInt(1337), Pool: Pool(loc)}
 	regs := Regimes()
-	e.Regime = regs[rapid.IntRange(0, len(regs)-1).Draw(t, "regime")]
-	e.Height = rapid.SampledFrom([]uint64{100, 5000, 1300000, 3000000}).Draw(t, "height")
+	e.Regime = regs[irange(t, 0, len(regs)-1, "regime")]
+	e.Height = sample(t, []uint64{100, 5000, 1300000, 3000000}, "height")
 	// Difficulties: after the KawPoW fork the reward formula subtracts log2(3e11), so keep
 	// realistic values there.
 	if e.Regime.PTN >= params.KawPowForkBlock {
-		e.Difficulty = rapid.SampledFrom([]*big.Int{big.NewInt(2e12), big.NewInt(9e13), big.NewInt(4e15)}).Draw(t, "difficulty")
+		e.Difficulty = sample(t, []*big.Int{big.NewInt(2e12), big.NewInt(9e13), big.NewInt(4e15)}, "difficulty")
 	} else {
-		e.Difficulty = rapid.SampledFrom([]*big.Int{big.NewInt(1e6), big.NewInt(3e10), big.NewInt(5e13)}).Draw(t, "difficulty")
+		e.Difficulty = sample(t, []*big.Int{big.NewInt(1e6), big.NewInt(3e10), big.NewInt(5e13)}, "difficulty")
 	}
 	rate := new(big.Int).Set(params.ExchangeRate)
-	switch rapid.IntRange(0, 3).Draw(t, "rate") {
+	switch irange(t, 0, 3, "rate") {
 	case 1:
 		rate.Mul(rate, big.NewInt(30))
 	case 2:
@@ -150,19 +157,19 @@ func GenEnv(t *rapid.T, loc common.Location) *Env {
 		rate.Div(rate, big.NewInt(1000))
 	}
 	e.ExchangeRate = rate
-	e.GasLimit = rapid.SampledFrom([]uint64{12000000, 12000000, 12000000, 400000, 90000}).Draw(t, "gaslimit")
+	e.GasLimit = sample(t, []uint64{12000000, 12000000, 12000000, 12000000, 12000000, 12000000, 400000, 90000}, "gaslimit")
 	// eligibility mask: zone bits drawn individually for the destination zones; never all set
 	var mask common.Hash
 	for _, z := range DestZones {
-		if rapid.IntRange(0, 3).Draw(t, "eligible") != 0 {
+		if irange(t, 0, 3, "eligible") != 0 {
 			pos := int(z>>4)*16 + int(z&0x0f)
 			mask[pos/8] |= 1 << uint(pos%8)
 		}
 	}
 	e.Eligible = mask
-	e.ParentUtxoSize = rapid.SampledFrom([]uint64{0, 1, 24, 4000000, 60000000}).Draw(t, "parentUtxoSetSize")
+	e.ParentUtxoSize = sample(t, []uint64{0, 1, 24, 4000000, 60000000}, "parentUtxoSetSize")
 	e.QiScalingFactor = math.Log(float64(e.ParentUtxoSize)) // as in Process; -Inf for 0
-	e.ParentTxCount = rapid.SampledFrom([]uint64{0, 0, 3, 200}).Draw(t, "parentTxs")
+	e.ParentTxCount = sample(t, []uint64{0, 0, 3, 200}, "parentTxs")
 
 	pt := types.EmptyZoneWorkObject()
 	pt.Header().SetExchangeRate(new(big.Int).Set(e.ExchangeRate))
@@ -182,7 +189,7 @@ func GenEnv(t *rapid.T, loc common.Location) *Env {
 	e.Signer = types.NewSigner(e.ChainID, loc)
 
 	// Base fee: level k means "a 20000-gas transaction needs about k qits of fee"; level 0 is 1 wei.
-	e.BaseFeeLevel = rapid.SampledFrom([]int{0, 0, 1, 3, 40}).Draw(t, "baseFeeLevel")
+	e.BaseFeeLevel = sample(t, []int{0, 0, 1, 3, 40}, "baseFeeLevel")
 	bf := big.NewInt(1)
 	if e.BaseFeeLevel > 0 {
 		bf = e.QiToQuai(big.NewInt(int64(e.BaseFeeLevel)))
